@@ -88,12 +88,12 @@ func TestC31_Converge(t *testing.T) {
 	nsSetT(t)
 	vk.Check(t, 600, func(rt *rapid.T) {
 		nsBubble(rt, func(rt *rapid.T, s *nsSim) {
-			w := nsGenWorld(rt, s, nsWorldOpts{minHosts: 2, maxHosts: 2, staticAll: true, v6: true})
+			w := nsGenWorld(rt, s, nsWorldOpts{minHosts: 2, maxHosts: 2, staticAll: true, v6: true, multinet: true})
 			w.pid = "C31"
 			h := &nsHist{rt: rt, w: w, delivered: map[int]map[int]bool{}, stats: map[string]int{}}
 			w.startAll(rt)
 			a, b := w.nodes[0], w.nodes[1]
-			addrA, addrB := w.specs[0].nets[0].Addr(), w.specs[1].nets[0].Addr()
+			addrA, addrB := w.commonAddr(1, 0), w.commonAddr(0, 1)
 			nodes := []*nsNode{a, b}
 			peers := []netip.Addr{addrB, addrA}
 			tr := &c31Track{primary: map[int]uint32{}, known: map[int]map[uint32]bool{0: {}, 1: {}}, swaps: map[int]int{}}
